@@ -6,6 +6,7 @@ package asm
 // globals / functions keep their textual order.
 
 import (
+	"regexp"
 	"fmt"
 	"os"
 	"strconv"
@@ -86,6 +87,19 @@ func TestVerifC20Asm(t *testing.T) {
 			}
 			if pi == 0 {
 				ref = out
+				// numbered definitions are listed in ascending order of their IDs
+				if fam == "metadata definitions" || fam == "attribute groups" {
+					re := regexp.MustCompile(`(?m)^(?:!|attributes #)([0-9]+) = `)
+					prev := -1
+					for _, mm := range re.FindAllStringSubmatch(out, -1) {
+						id, _ := strconv.Atoi(mm[1])
+						if id <= prev {
+							fail("%s: not printed in ascending order of their IDs (%d after %d):\n%s", fam, id, prev, out)
+							break
+						}
+						prev = id
+					}
+				}
 				continue
 			}
 			if out != ref {
